@@ -55,12 +55,12 @@ fn case_from_error(out: &mut Out, nodes: Vec<(u8, u32)>) {
     // direct oracle for the simplest chains: a bare h2 error is classified by the gRPC table
     if let [(3, r)] = nodes[..] {
         let want = match r {
-            0 | 1 | 2 | 3 | 4 | 9 | 10 => Some(13),
+            0 | 1 | 2 | 3 | 4 | 6 | 9 | 10 => Some(13),
             7 => Some(14),
             8 => Some(1),
             11 => Some(8),
             12 => Some(7),
-            5 | 6 | 13 => None,
+            5 | 13 => None, // not mapped by the gRPC table: INTERNAL or UNKNOWN
             _ => Some(2),
         };
         if let (Some(w), Tr::N(c)) = (want, &obs) {
@@ -191,12 +191,12 @@ fn case_reset(out: &mut Out, reason: u32, late: bool) {
         Ok(Err(e)) => (Tr::n(98u8), Some(e)),
         Ok(Ok(c)) => {
             let want = match reason {
-                0 | 1 | 2 | 3 | 4 | 9 | 10 => Some(13),
+                0 | 1 | 2 | 3 | 4 | 6 | 9 | 10 => Some(13),
                 7 => Some(14),
                 8 => Some(1),
                 11 => Some(8),
                 12 => Some(7),
-                5 | 6 | 13 => None,
+                5 | 13 => None, // not mapped by the gRPC table: INTERNAL or UNKNOWN
                 _ => Some(2),
             };
             let why = match want {
